@@ -5,6 +5,8 @@ import (
 	"crypto/subtle"
 	"encoding/hex"
 	"log"
+	"math"
+	"math/bits"
 	"net"
 	"net/http"
 	"runtime/debug"
@@ -432,12 +434,33 @@ type RateLimiterConfig struct {
 	TrustProxy        bool // When true, use X-Forwarded-For/X-Real-IP headers for client IP
 }
 
+// refillTokens returns the whole tokens earned in elapsed at perMinute tokens
+// per minute, given the previously carried remainder, and the new remainder
+// (both remainders are in units of nanoseconds x perMinute).
+func refillTokens(elapsed time.Duration, perMinute int, remainder uint64) (int, uint64) {
+	if elapsed <= 0 || perMinute <= 0 {
+		return 0, remainder
+	}
+	hi, lo := bits.Mul64(uint64(elapsed), uint64(perMinute))
+	lo, carry := bits.Add64(lo, remainder, 0)
+	hi += carry
+	if hi >= uint64(time.Minute) {
+		return math.MaxInt32, 0
+	}
+	tokens, rem := bits.Div64(hi, lo, uint64(time.Minute))
+	if tokens > math.MaxInt32 {
+		return math.MaxInt32, 0
+	}
+	return int(tokens), rem
+}
+
 // RateLimitMiddleware implements simple in-memory rate limiting
 func RateLimitMiddleware(config RateLimiterConfig) Middleware {
 	type clientLimit struct {
 		tokens       int
 		lastRefill   time.Time
 		requestCount int
+		remainder    uint64 // fraction of a token earned so far, in ns x RequestsPerMinute
 	}
 
 	const maxRateLimitEntries = 10000
@@ -492,14 +515,17 @@ func RateLimitMiddleware(config RateLimiterConfig) Middleware {
 
 			now := time.Now()
 			elapsed := now.Sub(limit.lastRefill)
-			tokensToAdd := int(elapsed.Minutes() * float64(config.RequestsPerMinute))
-
-			if tokensToAdd > 0 {
-				limit.tokens += tokensToAdd
-				if limit.tokens > config.BurstSize {
-					limit.tokens = config.BurstSize
-				}
-				limit.lastRefill = now
+			// Refill exactly: the fraction of a token earned so far is carried
+			// over in limit.remainder instead of being discarded, and the
+			// refill clock always advances so that time spent with a full
+			// bucket is not credited later.
+			tokensToAdd, remainder := refillTokens(elapsed, config.RequestsPerMinute, limit.remainder)
+			limit.lastRefill = now
+			limit.remainder = remainder
+			limit.tokens += tokensToAdd
+			if limit.tokens >= config.BurstSize {
+				limit.tokens = config.BurstSize
+				limit.remainder = 0
 			}
 
 			if limit.tokens <= 0 {
